@@ -32,10 +32,12 @@ def errName : Err → String
 
 def dtypeName : Dtype → String
   | .int => "int" | .flt => "flt" | .str => "str" | .bool => "bool" | .time => "time" | .obj => "obj"
+  | .cat => "cat" | .i32 => "i32" | .f32 => "f32"
 
 def dtype? : String → Option Dtype
   | "int" => some .int | "flt" => some .flt | "str" => some .str | "bool" => some .bool
-  | "time" => some .time | "obj" => some .obj | _ => none
+  | "time" => some .time | "obj" => some .obj | "cat" => some .cat | "i32" => some .i32 | "f32" => some .f32
+  | _ => none
 
 /-- `num / 2^exp` in lowest terms -/
 def normFlt : Int → Nat → Val
